@@ -124,6 +124,16 @@ ALPHABET = [
     ("make_trainable", "b0", "radius"), ("make_trainable", "all", "Leak_gLeak"), ("delete_trainables", "all", None), ("delete_trainables", "b0", None),
     ("init_states", "all", None),
     ("set_ncomp", "b0", 1), ("set_ncomp", "b0", 3), ("add_to_group", "b2c1", "g2"), ("add_to_group", "all", "g3"),
+    ("delete_channel", "b2c1", "Na"), ("insert", "b2c1", "Km"), ("delete_channel", "b2c1", "Km"),
+]
+# channels that share a parameter (vt: Na/K; eK: K/Km) or a current name (i_K: K/Km) and live in DISJOINT views: deleting
+# one of them through its own view must leave the other one intact
+SHARING = [
+    [("insert", "b0", "K"), ("insert", "b2c1", "Na"), ("delete_channel", "b2c1", "Na")],
+    [("insert", "b2c1", "Na"), ("insert", "b0", "K"), ("delete_channel", "b0", "K")],
+    [("insert", "b0", "K"), ("insert", "b2c1", "Km"), ("delete_channel", "b2c1", "Km")],
+    [("insert", "b2c1", "Km"), ("insert", "b0", "K"), ("delete_channel", "b0", "K")],
+    [("insert", "b0", "K"), ("insert", "b2c1", "Km"), ("record", "b0", "v"), ("delete_channel", "b2c1", "Km")],
 ]
 UNDO = [
     (("insert", "b0", "K"), ("delete_channel", "b0", "K")),
@@ -401,6 +411,7 @@ def families():
             tri = [[a, b, c] for a in ops for b in ops for c in ops if a[0] in ("insert", "stimulate", "clamp", "make_trainable") and b != a and c != b]
             idx = rng.choice(len(tri), size=min(600, len(tri)), replace=False)
             hs += [tri[i] for i in idx]
+        hs += SHARING
         for h in hs:
             insts.append({"module": kind, "history": [list(o) for o in h]})
         # undo pairs after a few prefixes
@@ -451,7 +462,7 @@ def main():
         "explanation": "program pairs: integrate on the edited module vs integrate on a module rebuilt from the edited module's public tables; integrate after history+op+inverse vs after history; "
                        "compared node by node for all symbolic stimulus samples and trainables. Histories are enumerated; table-consistency predicates are concrete side-checks.",
         "evaluations": len(insts), "distinct_nontrivial": c.get("history_accepted", 0),
-        "rule": "histories over a 31-operation node alphabet x 3 views plus 9 synapse-level operations (connect of three types on three (pre, post) pairs, record / set / make_trainable on the first / last synapse) on an irregular 3-branch cell and a 2-cell network: all of length 1, pairs (quick: those starting with a creating operation), sampled triples and "
+        "rule": "histories over a 34-operation node alphabet x 3 views plus 9 synapse-level operations (connect of three types on three (pre, post) pairs, record / set / make_trainable on the first / last synapse) on an irregular 3-branch cell and a 2-cell network: all of length 1, pairs (quick: those starting with a creating operation), sampled triples and "
                 "seeded random histories of length 3-5; undo pairs after 5 prefixes; non-trivial = accepted by the module (no exception)",
         "bounds": {"history length": "<= 2 exhaustive (quick, filtered) / <= 3 sampled (thorough) / 3-5 random", "steps": NSTEPS},
         "outside": ["connect between arbitrary compartments (three fixed (pre, post) pairs are used)", "table predicates are not solver-decided"],
